@@ -373,6 +373,31 @@ def _decide(mod, desc, opts, res, rlimit, V, ctx, claims, exc):
         s = mk_solver(rlimit); s.add(*base)
         r = _check(s, res)
         if r == z3.unsat:
+            # The proxy's own side conditions (non-zero denominators, root domains) contradict the
+            # path condition: on this FEASIBLE path the real code divides by zero / leaves the
+            # domain.  That is not vacuous success -- replay the path concretely.
+            if ctx.path:
+                sp = mk_solver(rlimit); sp.add(*ctx.path)
+                if _check(sp, res) == z3.sat:
+                    values, _ = model_values(sp.model(), V.names)
+                    cclaims, cexc, _ = _run_concrete(mod, desc, values)
+                    bad = None
+                    if cexc is not None:
+                        bad = f'{type(cexc).__name__}: {cexc}'
+                    else:
+                        for c in cclaims:
+                            if isinstance(c, Eq) and not concrete_equal(c.lhs, c.rhs):
+                                bad = f'{c.label}: got {_fmt(c.lhs)} expected {_fmt(c.rhs)}'
+                                break
+                            if isinstance(c, Fail):
+                                bad = c.detail
+                                break
+                    if bad:
+                        res['violations'].append(_violation(mod.PROP, desc, 'side-condition-violated-on-feasible-path',
+                                                            f'{desc.get("kind")}|side-condition-violated-on-feasible-path',
+                                                            'on a feasible path the code divides by zero or leaves the domain of a root: ' + bad, values, kind='path'))
+                        res['status'] = 'violation'
+                        return
             res['status'] = 'error' if res['status'] == 'ok' else res['status']
             res['notes'].append('VACUOUS: recorded side conditions are unsatisfiable')
             return
